@@ -649,6 +649,107 @@ def drv_font(case, rnd, ctx, S):
     font.close()
 
 
+def _stale_binary(data, rnd):
+    """Corrupt, in the *binary*, the derived fields a recalculating save must repair:
+    stored glyph boxes, head bbox and flags bit 1, maxp profile, hhea/vhea extents.
+    Uses only the oracle's own readers/assembler.  -> bytes or None (not applicable)."""
+    from vmon.oracle import sfnt as OS, derived as D
+    if data[:4] in (b"wOFF", b"wOF2", b"ttcf"):
+        return None
+    p = OS.validate_sfnt(data)
+    if p.problems or b"glyf" not in p.tables or b"loca" not in p.tables:
+        return None
+    T = dict(p.tables)
+    try:
+        head, maxp = D.read_head(T[b"head"]), D.read_maxp(T[b"maxp"])
+        loca = D.read_loca(T[b"loca"], head["indexToLocFormat"], maxp["numGlyphs"])
+    except (D.Bad, KeyError):
+        return None
+    glyf = bytearray(T[b"glyf"])
+    cands = [loca[g] for g in range(len(loca) - 1)
+             if loca[g + 1] - loca[g] >= 10 and loca[g + 1] <= len(glyf) and struct.unpack_from(">h", glyf, loca[g])[0] != 0]
+    if not cands:
+        return None
+    hit = [a for a in cands if rnd.random() < 0.6] or [rnd.choice(cands)]
+    for a in hit:
+        struct.pack_into(">hhhh", glyf, a + 2, *rnd.choice([(-900, -900, 40, 40), (0, 0, 0, 0), (7, 7, 8, 8), (-1, -2, 3000, 4000)]))
+    T[b"glyf"] = bytes(glyf)
+    h = bytearray(T[b"head"])
+    struct.pack_into(">hhhh", h, 36, 1, 2, 3, 4)
+    struct.pack_into(">H", h, 16, struct.unpack_from(">H", h, 16)[0] ^ 2)
+    T[b"head"] = bytes(h)
+    if maxp["version"] == 0x00010000:
+        m = bytearray(T[b"maxp"])
+        for idx in (0, 1, 2, 3, 11, 12):
+            struct.pack_into(">H", m, 6 + 2 * idx, rnd.choice([0, 1, 77]))
+        T[b"maxp"] = bytes(m)
+    for hea in (b"hhea", b"vhea"):
+        if hea in T and len(T[hea]) == 36:
+            x = bytearray(T[hea])
+            struct.pack_into(">Hhhh", x, 10, *[rnd.choice([0, 5, 1234]) for _ in range(4)])
+            T[hea] = bytes(x)
+    out, adj = OS.build_sfnt(p.version, [(t, T[t]) for t in p.order])
+    q = OS.validate_sfnt(out)
+    off = next(e["offset"] for e in q.entries if e["tag"] == b"head")
+    out = out[:off + 8] + struct.pack(">I", adj) + out[off + 12:]
+    return out
+
+
+def drv_stale(case, rnd, ctx, S):
+    """A font whose binary carries wrong derived fields is opened lazily, some subset of its
+    tables is touched, and it is saved with recalcBBoxes=True: whatever the library then
+    compiles must come out right (the monitor demands exactly the loaded tables)."""
+    from fontTools.ttLib import TTFont
+    if case["src"] == "gen":
+        with ctx.lib("save", op_detail="stale-source"):
+            data = corpus.save_bytes(_load_font(case, rnd, ctx))
+    else:
+        with ctx.lib("load"):
+            data = corpus.font_bytes(case["path"], case.get("member"))
+    del S["captures"][:]
+    bad = _stale_binary(data, rnd)
+    if bad is None:
+        ctx.skip("no plain sfnt with glyph descriptions to corrupt")
+        return
+    fid = short_hash(case["id"])[:8]
+    present = None
+    picks = [0] + (list(range(1, 6)) if case["variants"] >= 6 else rnd.sample(range(1, 6), max(0, case["variants"] - 1)))
+    for v in picks:
+        lazy = rnd.choice([None, True])
+        with ctx.lib("load"):
+            font = TTFont(io.BytesIO(bad), lazy=lazy, recalcTimestamp=False)       # recalcBBoxes=True is the default
+        present = [t for t in DERIVED_TABLES if t in font]
+        touch = {0: ["glyf"], 1: present, 2: ["glyf", "maxp", "head"], 3: [], 5: ["hhea", "hmtx", "glyf"]}.get(v)
+        if touch is None:
+            touch = [t for t in present if rnd.random() < 0.5]
+        try:
+            for t in touch:
+                if t in font:
+                    font[t]
+            if v == 2:
+                order = font.getGlyphOrder()
+                font["glyf"][order[rnd.randrange(len(order))]]              # expands exactly one glyph
+        except Exception as e:
+            ctx.skip("corrupted font does not decompile: %s" % type(e).__name__)
+            font.close()
+            continue
+        flavors = list(FLAVORS)
+        rnd.shuffle(flavors)
+        caps = {}
+        for flavor in (flavors if (v == 0 or case["variants"] >= 6) else flavors[:1]):
+            font.flavor = flavor
+            ncap = len(S["captures"])
+            with ctx.lib("save", flavor=str(flavor), op_detail="stale-binary"):
+                font.save(io.BytesIO(), reorderTables=rnd.choice([True, False, None]))
+            if len(S["captures"]) > ncap:
+                caps[flavor] = S["captures"][-1]
+                S["keys"].add("stale/%s/%d/%s/%s" % (fid, v, flavor, lazy))
+        if len(caps) == 3:
+            _compare_group(ctx, S, caps, case["id"])
+        del S["captures"][:]
+        font.close()
+
+
 def drv_tables(case, rnd, ctx, S):
     """Fonts that are nothing but n opaque tables: pure container arithmetic."""
     from fontTools.ttLib import TTFont, TTLibError
@@ -697,6 +798,71 @@ def _small_fonts():
     return sorted(r["path"] for r in recs)
 
 
+def _perm_font(order, advances, rnd_shapes, padding=4, extra=None):
+    """The same glyphs and metrics under a given glyph order (hmtx = permuted 4-byte
+    records; with glyf.padding=4 the glyf table is a permutation of aligned words too)."""
+    gl = {}
+    for n in order:
+        gl[n] = _empty() if rnd_shapes[n] is None else _simple([rnd_shapes[n]])
+    font = _build(gl, {n: advances[n] for n in order})
+    font["glyf"].padding = padding
+    for tag, data in (extra or {}).items():
+        from fontTools.ttLib.tables.DefaultTable import DefaultTable
+        t = DefaultTable(tag)
+        t.data = data
+        font[tag] = t
+    return font
+
+
+def _colliding_collection(i, rnd):
+    """Collections whose members carry same-tag tables of equal length and equal uint32
+    word sum (the sfnt checksum) but different content: permuted glyph order, two aligned
+    words swapped, and (w0+1, w1-1) pairs."""
+    from fontTools.ttLib import TTCollection, newTable
+    names = [".notdef", "A", "B", "C", "D", "E"][:rnd.choice([4, 5, 6])]
+    shapes = {n: (None if (k == 0 and rnd.random() < 0.5) else _box(10 * k, -5 * k, 100 + 37 * k, 200 + 11 * k))
+              for k, n in enumerate(names)}
+    adv = {n: (500 + 100 * k + rnd.randrange(50), 10 * k + rnd.randrange(9)) for k, n in enumerate(names)}
+    kind = i % 4
+    words = [rnd.getrandbits(32) for _ in range(rnd.choice([2, 3, 8, 33]))]
+    blob = lambda ws, tail=b"": b"".join(struct.pack(">I", w & 0xFFFFFFFF) for w in ws) + tail
+    tail = bytes(rnd.getrandbits(8) for _ in range(rnd.choice([0, 1, 2, 3])))
+    fonts = []
+    if kind in (0, 1):
+        # same glyphs, permuted glyph order (2-3 members)
+        orders = [list(names)]
+        for _ in range(rnd.choice([1, 2])):
+            o = names[1:]
+            while [names[0]] + o in orders:
+                rnd.shuffle(o)
+            orders.append([names[0]] + o)
+        fonts = [_perm_font(o, adv, shapes, padding=rnd.choice([4, 4, 2])) for o in orders]
+    else:
+        a, b = rnd.sample(range(len(words)), 2)
+        sw = list(words)
+        sw[a], sw[b] = sw[b], sw[a]
+        pm = list(words)
+        pm[a], pm[b] = pm[a] + 1, pm[b] - 1
+        for k, ws in enumerate((words, sw, pm)):
+            f = _perm_font(names, adv, shapes, extra={"zzzz": blob(ws, tail), "zzzy": blob(ws[::-1] if k == 1 else ws)})
+            cvt = newTable("cvt ")
+            import array
+            vals = [((w >> 16) & 0x7FFF) - 0x4000 for w in words] + [(w & 0x7FFF) - 0x4000 for w in words]
+            if k:   # swap two aligned int16 pairs
+                vals[0:2], vals[2:4] = vals[2:4], vals[0:2]
+            cvt.values = array.array("h", vals)
+            f["cvt "] = cvt
+            fonts.append(f)
+        if kind == 3:
+            fonts = fonts[:2]
+    if kind in (1, 3):
+        # members read back from binary: their tables reach the collection raw, through the reader
+        fonts = [corpus.open_bytes(corpus.save_bytes(f)) for f in fonts]
+    coll = TTCollection()
+    coll.fonts.extend(fonts)
+    return coll
+
+
 def drv_ttc(case, rnd, ctx, S):
     from fontTools.ttLib import TTFont, TTCollection, newTable
     scratch = os.environ.get("VMON_SCRATCH") or "/tmp"
@@ -706,6 +872,8 @@ def drv_ttc(case, rnd, ctx, S):
             with ctx.lib("load-ttc"):
                 coll = TTCollection(corpus.abspath(case["path"]), lazy=lazy, recalcTimestamp=False)
             variants.append(("corpus-lazy%s" % lazy, coll))
+    elif case["src"] == "collide":
+        variants = [("collide", _colliding_collection(case["index"], rnd))]
     else:
         pool = _small_fonts()
         i = case["index"]
@@ -876,4 +1044,4 @@ def drv_workload(case, rnd, ctx, S):
                 vf.save(io.BytesIO())
 
 
-DRIVERS = {"font": drv_font, "tables": drv_tables, "ttc": drv_ttc, "workload": drv_workload}
+DRIVERS = {"font": drv_font, "tables": drv_tables, "ttc": drv_ttc, "workload": drv_workload, "stale": drv_stale}
